@@ -11,11 +11,13 @@ from __future__ import annotations
 import asyncio
 import itertools
 
+import translate.dump_stores
 from harness import core
 from harness.core import Atom
 
 ID = "C04"
 LEAN_MODULES = ["JinjaV.Props.C04"]
+GEN = [translate.dump_stores.gen]
 LEVEL = "proof"
 TRUSTED = [
     "Model/Inherit.lean is a hand transcription of compiler.py visit_Template/visit_Block/visit_Extends/visit_Output "
@@ -24,6 +26,8 @@ TRUSTED = [
     "the harness's rendering of a hierarchy structure to template text (src_piece) and its mapping of exceptions to the "
     "model's error kinds",
     "CPython generator/yield-from semantics for the generated root and block functions",
+    "translate/dump_stores.py (Python ast): that Gen/DumpStores.lean is the body of Symbols.dump_stores; the loop object is "
+    "modelled by one pseudo-variable per attribute (index, first, last, length)",
 ]
 ASSUMPTIONS = [
     "autoescape off, default delimiters, default Undefined; variable values are strings",
@@ -44,7 +48,9 @@ CLAIM = dict(
          "children outside blocks, also not from if/for bodies at their top level; static, conditional and variable "
          "extends), child_root_silent, super_next (super() in the i-th definition renders the (i+1)-th, super.super the "
          "(i+2)-th, undefined when absent), self_most_derived (self.b() renders blocks[b][0], raises on a required head), "
-         "scoped_sees_locals (a scoped placeholder passes the loop variables, an unscoped one does not), required_anywhere "
+         "scoped_sees_locals (a scoped placeholder passes the loop variables, an unscoped one does not), "
+         "dump_stores_innermost_wins (Symbols.dump_stores as read from idtracking.py resolves every name of the scope chain "
+         "to its innermost binding; re-proved over the regenerated program each run), required_anywhere "
          "(full strength: wherever `required` is declared, rendering raises exactly when the most-derived definition of a "
          "rendered block is a required declaration), required_most_derived_raises, required_via_super_renders, "
          "required_root_iff, extends_twice (a second executed extends raises TemplateRuntimeError). Tie: L-e2e on "
@@ -88,6 +94,10 @@ def src_piece(p) -> str:
         return "{%% for %s in [%s] %%}%s{%% endfor %%}" % (p[1], ", ".join("'%s'" % i for i in p[2]), src_body(p[3]))
     if k == "if":
         return "{%% if %s %%}%s{%% endif %%}" % (p[1], src_body(p[2]))
+    if k == "with":
+        return "{%% with %s = '%s' %%}%s{%% endwith %%}" % (p[1], p[2], src_body(p[3]))
+    if k == "la":
+        return "{{ loop.%s }}" % p[1]
     if k == "extl":
         return '{%% extends "%s" %%}' % p[1]
     if k == "extd":
@@ -132,6 +142,10 @@ def wire_piece(p):
         return [Atom("for"), p[1], list(p[2]), [wire_piece(q) for q in p[3]]]
     if k == "if":
         return [Atom("if"), p[1], [wire_piece(q) for q in p[2]]]
+    if k == "with":
+        return [Atom("with"), p[1], p[2], [wire_piece(q) for q in p[3]]]
+    if k == "la":
+        return [Atom("la"), p[1]]
     raise AssertionError(k)
 
 
@@ -425,12 +439,80 @@ class HG:
         sets = []
         if r.random() < 0.4:
             sets = self.add_probe(tpls, vars_, depth)
+        if r.random() < 0.4:
+            self.add_nested_scopes(tpls, vars_, depth)
         # a template outside the chain with the same block names
         zz = set()
         tpls.append(["zz", [["t", "ZZ"]] + [self.mkblock(0, names, i, zz, 0, False, []) for i in range(len(names)) if r.random() < 0.5]])
         r.shuffle(tpls)
         main = "c%d" % r.choice([depth - 1] * 4 + list(range(depth)))
         return {"tpls": tpls, "vars": sorted(vars_.items()), "main": main, "tplobj": tplobj, "sets": sets}
+
+    def add_nested_scopes(self, tpls, vars_, depth):
+        """a placeholder (scoped, or unscoped as a control) whose call site is 2-3 scopes deep (for / with) that bind the
+        SAME names at several levels (loop target reused, `loop` itself, with variables); the block, its overrides in 0-2
+        descendants and super() from them read those names and loop.index/first/last/length: the innermost binding
+        must be the visible one."""
+        r = self.r
+        self.feat.add("nested-scopes")
+        names = r.choice([["x"], ["x"], ["x", "y"], ["x", "w"]])
+        nest = r.randrange(2, 4)
+        scoped = r.random() < 0.8
+        kinds = [r.choice(["for", "for", "with"]) for _ in range(nest)]
+        if "for" not in kinds:
+            kinds[r.randrange(nest)] = "for"
+        has_for = True
+        attrs = ["index", "first", "last", "length"]
+
+        def reads(n):
+            out = []
+            for _ in range(n):
+                c = r.random()
+                if c < 0.45:
+                    out.append(["v", r.choice(names)])
+                elif c < 0.85 and has_for:
+                    out.append(["la", r.choice(attrs)])
+                else:
+                    out.append(["t", r.choice([":", ";", ","])])
+            return out
+
+        inner_body = [["t", "/"]] + reads(r.randrange(2, 5)) + [["t", "\\"]]
+        if not scoped:
+            inner_body = [p for p in inner_body if p[0] != "la"] if r.random() < 0.7 else inner_body
+            self.feat.add("nested-scopes-unscoped-control")
+        piece = ["b", "n1", scoped, False, inner_body]
+        cur = [piece]
+        if r.random() < 0.4:
+            cur = [["la", r.choice(attrs)] if kinds[-1] == "for" else ["v", r.choice(names)]] + cur
+        for depth_i in range(nest - 1, -1, -1):
+            nm = r.choice(names)
+            if kinds[depth_i] == "for":
+                items = [r.choice(["a", "b", "1", "2"]) for _ in range(r.randrange(1, 4))]
+                cur = [["for", nm, items, [["t", "["]] + cur + ([["v", nm]] if r.random() < 0.3 else []) + [["t", "]"]]]]
+                self.feat.add("nested-for-reused-target" if names.count(nm) and depth_i < nest - 1 else "nested-for")
+            else:
+                cur = [["with", nm, r.choice(["p", "q"]), [["t", "("]] + cur + [["t", ")"]]]]
+                self.feat.add("nested-with")
+        root = tpls[0][1]
+        if r.random() < 0.3:
+            root.append(["b", "w2", False, False, cur])
+            self.feat.add("nested-scopes-inside-block")
+        else:
+            root += cur
+        overrides = 0
+        for lvl in range(1, depth):
+            if overrides < 2 and r.random() < 0.5:
+                overrides += 1
+                body = [["t", "<"]] + reads(r.randrange(1, 4))
+                if not scoped and r.random() < 0.7:
+                    body = [p for p in body if p[0] != "la"]
+                if r.random() < 0.6:
+                    body.append(["sup", 0])
+                    self.feat.add("nested-scopes-override-super")
+                tpls[lvl][1].append(["b", "n1", False, False, body + [["t", ">"]]])
+        for nm in names:
+            if r.random() < 0.4:
+                vars_[nm] = nm.upper() + "ctx"
 
     def add_probe(self, tpls, vars_, depth):
         """a scoped block called inside a loop, then blocks / overrides / super targets / self calls rendered LATER that
@@ -596,7 +678,16 @@ def run(ctx, res):
     leak = {"tpls": [["root", [["for", "item", ["1", "2"], [["b", "row", True, False, [["t", "["], ["v", "item"], ["t", "]"]]]]],
                                ["t", "<"], ["b", "foot", False, False, [["v", "item"]]], ["t", ">"]]],
                      ["kid", [["extl", "root"]]]], "vars": [["item", "CTX"]], "main": "kid", "tplobj": []}
-    fixed = [f3, dict(f3, main="c1"), k2, leak, dict(leak, vars=[]), dict(leak, sets=["kid"]), dict(leak, main="root")]
+    cell = ["b", "cell", True, False, [["la", "index"], ["t", ":"], ["v", "i"], ["t", ";"]]]
+    nest = {"tpls": [["base", [["for", "g", ["A", "B"], [["t", "["], ["for", "i", ["a", "b"], [cell]], ["t", "]"]]]]],
+                     ["child", [["extl", "base"], ["b", "cell", False, False,
+                                                   [["t", "<"], ["la", "index"], ["t", "/"], ["v", "i"], ["t", "|"], ["sup", 0], ["t", ">"]]]]]],
+            "vars": [], "main": "child", "tplobj": []}
+    reuse = {"tpls": [["base", [["for", "x", ["1", "2"], [["t", "["], ["for", "x", ["a", "b"], [["with", "x", "w", [
+        ["b", "c", True, False, [["v", "x"], ["la", "index"], ["la", "length"]]]]], ["b", "d", True, False, [["v", "x"], ["la", "last"]]]]],
+                                 ["t", "]"]]]]], ["child", [["extl", "base"], ["b", "d", False, False, [["v", "x"], ["sup", 0]]]]]],
+             "vars": [["x", "CTX"]], "main": "child", "tplobj": []}
+    fixed = [nest, dict(nest, main="base"), reuse, dict(reuse, main="base"), f3, dict(f3, main="c1"), k2, leak, dict(leak, vars=[]), dict(leak, sets=["kid"]), dict(leak, main="root")]
 
     # ---- exhaustive small scope -------------------------------------------------------------------------
     small = list(small_scope(ctx.pick(3, 4), 2))
@@ -649,7 +740,9 @@ def run(ctx, res):
                  "loop with blocks in a child, a same-named distractor template; in 40% of the cases a directed probe: a scoped "
                  "block called in a loop of the root, then blocks / overrides with super / self calls that print the loop "
                  "variable's name, the name present or absent among the render variables, some templates padded with a "
-                 "top-level assignment to an unread name), each rendered by render, generate, stream, "
+                 "top-level assignment to an unread name; in 40% a placeholder (scoped, or unscoped as control) 2-3 scopes deep in "
+                 "for/with scopes binding the same names at several levels, read together with loop.index/first/last/length in "
+                 "the block, in overrides of 0-2 descendants and through super()), each rendered by render, generate, stream, "
                  "render_async, generate_async and root_render_func and compared with the Lean model's result for the same "
                  f"structure; exhaustive small scope: all {len(small)} hierarchies with <= {ctx.pick(3, 4)} templates x <= 2 "
                  "block names x {absent, plain, super, required} per template and block (render, render_async, "
